@@ -43,4 +43,10 @@ RecordsOf(batch, CodeOf(_)) ==
 ReadFilter(records, Known(_), NameOf(_)) ==
   LET keep == SelectSeq(records, LAMBDA r: r[1] = EV_KEY /\ r[3] \in {0, 1} /\ Known(r[2]))
   IN [i \in 1..Len(keep) |-> [t |-> IF keep[i][3] = 1 THEN "P" ELSE "R", k |-> NameOf(keep[i][2])]]
+
+\* the tablet-mode switch reader (not a listed property; checked as an auxiliary behaviour): EV_SW (5) records with code
+\* SW_TABLET_MODE (1) and value 1 / 0 are On / Off, everything else is skipped
+TabletFilter(records) ==
+  LET keep == SelectSeq(records, LAMBDA r: r[1] = 5 /\ r[2] = 1 /\ r[3] \in {0, 1})
+  IN [i \in 1..Len(keep) |-> IF keep[i][3] = 1 THEN "On" ELSE "Off"]
 =============================================================================
